@@ -2,6 +2,7 @@
   C09 — call/N, once/1, findall/3, = and \= agree with their standard definitions.
 -/
 import Yld.Proofs.Restore2
+import Yld.Proofs.NeqSpec
 namespace Yld.C09
 
 /-- once(G) fails, without raising, when G has no answer. -/
@@ -48,5 +49,34 @@ theorem builtins_leave_no_binding (cfg : Cfg) (f : Nat) (b : String) (args : Lis
 /-- The consumer findall/3 runs its goal with never abandons it and binds nothing. -/
 theorem findall_collects_without_binding (f : Nat) (tmpl : Term) : Disciplined (findallCollect f tmpl) :=
   findallCollect_disciplined f tmpl
+
+/-! ### `\\=` against unifiability (for an engine whose `=` is the builtin: `StdEq`) -/
+
+/-- X \\= Y fails whenever X and Y have a unifier: the continuation never runs. -/
+theorem neq_fails_on_unifiable_terms (cfg : Cfg) (w : World) (h : StdEq cfg w) (f : Nat) (a b : Term)
+    (θ : Val) (hθ : Solves θ w.b) (hu : a.subst θ = b.subst θ) :
+    ∃ r : R, (r.2 = none ∨ r.2 = some .oof) ∧ ∀ k, runBuiltin cfg (f+5) "\\=" [a, b] k w = r :=
+  neq_fails_when_unifiable cfg w h f a b θ hθ hu
+
+/-- X \\= Y succeeds exactly once, binding nothing, when X and Y have no unifier (or the limit is hit,
+    or the attempt built a cyclic term, which the model flags as unspecified). -/
+theorem neq_succeeds_on_non_unifiable_terms (cfg : Cfg) (w : World) (h : StdEq cfg w) (f : Nat) (a b : Term)
+    (hno : ∀ θ, Solves θ w.b → a.subst θ ≠ b.subst θ) (hsolv : Solvable w.b) (hcyc : w.cyc = false) :
+    (∃ w', w'.b = w.b ∧ w'.core = w.core ∧ ∀ k, runBuiltin cfg (f+5) "\\=" [a, b] k w = k w') ∨
+    (∃ r : R, r.2 = some .oof ∧ ∀ k, runBuiltin cfg (f+5) "\\=" [a, b] k w = r) ∨
+    (∃ r : R, r.1.cyc = true ∧ ∀ k, runBuiltin cfg (f+5) "\\=" [a, b] k w = r) :=
+  neq_succeeds_without_unifier cfg w h f a b hno hsolv hcyc
+
+/-- … and it fails only then: a failure on an acyclic heap (no cyclic term built) exhibits a unifier. -/
+theorem neq_failure_exhibits_a_unifier (cfg : Cfg) (w : World) (h : StdEq cfg w) (f : Nat) (a b : Term)
+    (hsolv : Solvable w.b)
+    (hfail : (runBuiltin cfg (f+5) "\\=" [a, b] (fun w' => (w', some .stop)) w).2 = none)
+    (hc : (runBuiltin cfg (f+5) "\\=" [a, b] (fun w' => (w', some .stop)) w).1.cyc = false) :
+    ∃ θ, Solves θ w.b ∧ a.subst θ = b.subst θ :=
+  neq_fails_only_when_unifiable cfg w h f a b hsolv hfail hc
+
+/-- The hypothesis is that of a fresh engine. -/
+example : StdEq { blacklist := ({} : Engine).blacklist, defs := ({} : Engine).defs, mode := .compiled } ({} : Engine).w :=
+  ⟨by rfl, by rfl, by rfl⟩
 
 end Yld.C09
